@@ -166,8 +166,9 @@ def run(ctx, thorough=False):
     ctx.evaluations += n_in + n_out
     ctx.extra['cells'] = {'accepted_as_required': n_in, 'rejected_as_required': n_out, 'excluded_margin_or_ambiguous': n_excl, 'undecided': n_und, 'violating': viol}
     total = n_in + n_out + n_und
-    ctx.require(total > 0 and (n_in + n_out) >= 0.7 * total, 'E4 precision: %d of %d classified cells decided (floor 70%%)' % (n_in + n_out, total))
-    ctx.floor('R07.E decided cells', n_in + n_out, 3000)
+    ctx.require(viol > 0 or (total > 0 and (n_in + n_out) >= 0.7 * total), 'E4 precision: %d of %d classified cells decided (floor 70%%)' % (n_in + n_out, total))
+    if viol == 0:
+        ctx.floor('R07.E decided cells', n_in + n_out, 3000)
     for i in range(0, 40):
         ctx.nontrivial.add(('R07.E', 'cellgroup%d' % i))
 
